@@ -249,6 +249,11 @@ def _events(rng, n, keys_pools, base, unit, contiguous):
                 data[k] = rng.choice(pool)
         if rng.random() < 0.3:
             data["other"] = i
+        if rng.random() < 0.5:
+            # the same keys and values, filled in another order (events from different sources, a field re-added)
+            items = list(data.items())
+            rng.shuffle(items)
+            data = dict(items)
         dur = rng.choice([0, 1, 1, 2, 5, 60]) * unit + rng.choice([0, 0, 0, 1, 999])
         ts = base + pos
         if contiguous:
